@@ -250,7 +250,10 @@ def time_observe(c, time_obs, same_grid, n=3, K=3, obsmap=False):
     A, f, u0 = _form(c, n, True)
     grid = np.linspace(0, 1, n); gobs = grid if same_grid else np.linspace(0.1, 0.9, 2)
     times = np.linspace(0, 1, K)
-    tobs = {'final': 'final', 'all': 'all', 'explicit': np.array([0.25, 0.75])}[time_obs]
+    tobs = {'final': 'final', 'all': 'all', 'explicit': np.array([0.25, 0.75]),
+            # ONE explicit observation time: an interior level of the time grid, the initial time, a time between levels, the final time given explicitly
+            'single_interior_level': times[K // 2:K // 2 + 1].copy(), 'single_initial_time': times[:1].copy(), 'single_between_levels': np.array([0.6 * times[1] + 0.4 * times[2]]),
+            'single_final_explicit': times[-1:].copy()}[time_obs]
     seen = []
     def _om(v): seen.append(np.shape(v)); return 2 * v + 1
     om = _om if obsmap else None
@@ -263,7 +266,7 @@ def time_observe(c, time_obs, same_grid, n=3, K=3, obsmap=False):
         c.holds('observation_map_receives_the_restricted_solution_one_column_per_time_a_vector_for_a_single_time',
                 len(seen) == 1 and seen[0] == ((len(gobs),) if nt == 1 else (len(gobs), nt)), note=str(seen))
         seen.clear()
-    if same_grid and time_obs == 'final':
+    if same_grid and time_obs in ('final', 'single_final_explicit'):
         c.holds('no_interpolation_at_coinciding_nodes_and_final_time', len(Interp.log) == 0)
         c.eq('observation_is_last_time_level', out, om(U[:, -1]) if om else U[:, -1])
     elif c.sym:
@@ -279,6 +282,9 @@ def time_observe(c, time_obs, same_grid, n=3, K=3, obsmap=False):
         # native: exact at coinciding nodes and times
         if same_grid and time_obs == 'all':
             c.eq('interpolation_exact_at_coinciding_nodes_and_times', out, om(U) if om else U, tol=1e-7)
+        if same_grid and time_obs in ('single_interior_level', 'single_initial_time'):
+            k = K // 2 if time_obs == 'single_interior_level' else 0
+            c.eq('observation_at_a_single_time_level_is_the_solution_at_that_level', out, om(U[:, k]) if om else U[:, k], tol=1e-7)
 
 
 def pde_model(c, n=2):
@@ -323,7 +329,7 @@ def jobs(tier):
         J.append(Job(f'TimeDependentLinearPDE.solve:{method}:spelt_{spelt}:levels=3', lambda c, m=spelt: time_dependent(c, m, 2, 3, 1 if m.lower() == 'backward_euler' else 0), 'Pbox',
                      F('TimeDependentLinearPDE.solve', 'TimeDependentLinearPDE.method'), extra=_extra, timeout=600))
         J.append(Job(f'TimeDependentLinearPDE.solve:{method}:step_induction_on_cut_loop', lambda c, m=method: euler_step_induction(c, m), 'Pinf', F('TimeDependentLinearPDE.solve'), extra=_extra))
-    for to in ('final', 'all', 'explicit'):
+    for to in ('final', 'all', 'explicit', 'single_interior_level', 'single_initial_time', 'single_between_levels', 'single_final_explicit'):
         for sg in (True, False):
             J.append(Job(f'TimeDependentLinearPDE.observe:time_obs={to}:same_grid={sg}', lambda c, to=to, sg=sg: time_observe(c, to, sg, 5, 5, to != 'all'), 'Pbox', F('TimeDependentLinearPDE.observe', 'TimeDependentLinearPDE.__init__'), extra=_extra))
     for kind in ('steady', 'backward_euler'):
